@@ -189,6 +189,7 @@ var accessorListHook func(list, index ssa.Value) (string, bool)
 type listComp struct {
 	prefix []string
 	elem   string
+	alts   []*listComp // the list is one of several written-out lists (chosen on the way to the call)
 }
 
 func (lc *listComp) at(k int) string {
@@ -221,7 +222,20 @@ func (df *DriverFacts) listComps(fn *ssa.Function, v ssa.Value) *listComp {
 	}
 	df.comps[v] = nil
 	e := df.x.TopEnv(fn)
-	l, ok := df.x.eval(v, e).(ListV)
+	val := df.x.eval(v, e)
+	if opts, ok := listChoice(val); ok {
+		lc := &listComp{}
+		for _, o := range opts {
+			a := &listComp{}
+			for _, el := range o.Finite {
+				a.prefix = append(a.prefix, chainOfVal(el))
+			}
+			lc.alts = append(lc.alts, a)
+		}
+		df.comps[v] = lc
+		return lc
+	}
+	l, ok := val.(ListV)
 	if !ok {
 		return nil
 	}
@@ -400,7 +414,13 @@ func (df *DriverFacts) traces(fn *ssa.Function, iface *types.Interface) ([][]str
 			trunc = true
 			return
 		}
-		if visits[b] >= 3 {
+		// a helper that walks a list it is handed is followed for one round more than a handler:
+		// lists of three written-out elements occur (start, end, value)
+		limit := 3
+		if df.depth > 0 {
+			limit = 4
+		}
+		if visits[b] >= limit {
 			return
 		}
 		visits[b]++
@@ -603,56 +623,76 @@ func (df *DriverFacts) traces(fn *ssa.Function, iface *types.Interface) ([][]str
 			fmt.Sscanf(e, "call#%d", &id)
 			ci := df.calls[id]
 			sub := df.helperTraces(ci.callee, iface)
+			// a list argument that is one of several written-out lists: one round per alternative
+			listSets := [][]*listComp{ci.lists}
+			for pi, lc0 := range ci.lists {
+				if lc0 == nil || len(lc0.alts) == 0 {
+					continue
+				}
+				var grown [][]*listComp
+				for _, set := range listSets {
+					for _, alt := range lc0.alts {
+						cp := append([]*listComp{}, set...)
+						cp[pi] = alt
+						grown = append(grown, cp)
+					}
+				}
+				listSets = grown
+			}
 			var next [][]string
 			for _, a := range alts {
-				for _, st := range sub {
-					n := append([]string{}, a...)
-					// a list built by the caller with known leading elements: the helper's k-th look at
-					// "the current element" of that parameter is the k-th component
-					infeasible := false
-					st = append([]string{}, st...)
-					for pi, p := range ci.callee.Params {
-						if pi >= len(ci.lists) || ci.lists[pi] == nil {
-							continue
-						}
-						lc := ci.lists[pi]
-						tok := "param:" + p.Name() + "[*]"
-						if pi == 1 {
-							tok = "self[*]" // the helper's second parameter is its "node"
-						}
-						occ := 0
-						for i, se := range st {
-							if strings.Contains(se, tok) {
-								st[i] = strings.ReplaceAll(se, tok, lc.at(occ))
-								occ++
-							}
-						}
-						if occ < len(lc.prefix) || (lc.elem == "" && occ > len(lc.prefix)) {
-							infeasible = true
-						}
-					}
-					if infeasible {
-						continue
-					}
-					for _, se := range st {
-						// rename the callee's parameters to what the caller passed
+				for _, lists := range listSets {
+					for _, st := range sub {
+						ci := ci
+						ci.lists = lists
+						n := append([]string{}, a...)
+						// a list built by the caller with known leading elements: the helper's k-th look at
+						// "the current element" of that parameter is the k-th component
+						infeasible := false
+						st = append([]string{}, st...)
 						for pi, p := range ci.callee.Params {
-							if pi < len(ci.args) && ci.args[pi] != "" {
-								se = strings.ReplaceAll(se, "param:"+p.Name(), ci.args[pi])
-								if isBool(p.Type()) {
-									se = strings.ReplaceAll(se, "{"+p.Name()+"}", ci.flags[pi])
+							if pi >= len(ci.lists) || ci.lists[pi] == nil {
+								continue
+							}
+							lc := ci.lists[pi]
+							tok := "param:" + p.Name() + "[*]"
+							if pi == 1 {
+								tok = "self[*]" // the helper's second parameter is its "node"
+							}
+							occ := 0
+							for i, se := range st {
+								if strings.Contains(se, tok) {
+									st[i] = strings.ReplaceAll(se, tok, lc.at(occ))
+									occ++
 								}
 							}
+							if occ < len(lc.prefix) || (lc.elem == "" && occ > len(lc.prefix)) {
+								infeasible = true
+							}
 						}
-						// the callee's own node parameter is what the caller passed second
-						if len(ci.args) > 1 && ci.args[1] != "" {
-							se = strings.ReplaceAll(se, "(self)", "("+ci.args[1]+")")
-							se = strings.ReplaceAll(se, "(self[", "("+ci.args[1]+"[")
-							se = strings.ReplaceAll(se, "(self.", "("+ci.args[1]+".")
+						if infeasible {
+							continue
 						}
-						n = append(n, se)
+						for _, se := range st {
+							// rename the callee's parameters to what the caller passed
+							for pi, p := range ci.callee.Params {
+								if pi < len(ci.args) && ci.args[pi] != "" {
+									se = strings.ReplaceAll(se, "param:"+p.Name(), ci.args[pi])
+									if isBool(p.Type()) {
+										se = strings.ReplaceAll(se, "{"+p.Name()+"}", ci.flags[pi])
+									}
+								}
+							}
+							// the callee's own node parameter is what the caller passed second
+							if len(ci.args) > 1 && ci.args[1] != "" {
+								se = strings.ReplaceAll(se, "(self)", "("+ci.args[1]+")")
+								se = strings.ReplaceAll(se, "(self[", "("+ci.args[1]+"[")
+								se = strings.ReplaceAll(se, "(self.", "("+ci.args[1]+".")
+							}
+							n = append(n, se)
+						}
+						next = append(next, n)
 					}
-					next = append(next, n)
 				}
 				if len(next) > 400 {
 					trunc = true
